@@ -116,6 +116,9 @@ CgrOk(e) ==
           /\ Len(e.pts) = 2 * e.nexact
           /\ \A i \in 1..e.nexact : /\ e.pts[2 * i - 1] = Num(PathOf(cls, i, CornerX))
                                     /\ e.pts[2 * i]     = Num(PathOf(cls, i, CornerY))
+          \* (recur: points that are not the double-precision midpoint of their predecessor and their base's corner, counted by
+          \* the recorder - the rule in the arithmetic the code states it in; the exact and the top-bit judgements below are TLC's)
+          /\ ("recur" \in DOMAIN e) => e.recur = 0
           /\ Len(e.tops) = n - e.nexact
           \* beyond the exact phase: the top 20 bits of point i are the corner bits of the last 20 bases (sub-square containment)
           /\ \A t \in 1..Len(e.tops) :
